@@ -126,6 +126,9 @@ def run(ctx):
     ctx.cov["size_sweep"] = T.check_sweep(ctx, sweep, ("reduce",))
     ctx.cov["size_sweep_note"] = ("tables of the sweep are compared with the spec in Python (one row per distinct key in key order, count, "
                                   "wrapped sum); they are not evaluated by the Gallina model inside Coq (quick: up to 5003 rows, thorough: up to 65537)")
+    es = T.htable(["-mode", "e2esweep", "-n", 2 if ctx.tier == "thorough" else 1, "-seed", ctx.seed], timeout=1800)
+    ctx.cov["statement_size_sweep"] = T.check_e2e_sweep(ctx, es, ("groupby",))
+    ctx.cov["statement_size_sweep_note"] = "statements over graphs of 13..4099 (thorough: ..16385) triples, result compared with the spec in Python, not evaluated in Coq"
     T.replay_findings(ctx, "C11", "replay11")
     seen = set()
     for c, v in zip(reds, rc):
